@@ -106,11 +106,11 @@ def run_item(item):
         df["kind"] = df["kind"] & (df["alter"] < 25)
         df["rentner"] = df["rentner"] & (df["alter"] >= 60)
         # keep the pension history consistent with the new age
-        ok_em = (df["alter"] >= 21) & (df["alter"] < 63)
+        ok_em = (df["alter"] >= 22) & (df["alter"] < 63)
         df["voll_erwerbsgemind"] = df["voll_erwerbsgemind"] & ok_em
         df["teilw_erwerbsgemind"] = df["teilw_erwerbsgemind"] & ok_em
         em = df["voll_erwerbsgemind"] | df["teilw_erwerbsgemind"]
-        entry = np.minimum(df["alter"], np.maximum(20, df["alter"] - rng.integers(0, 15, len(df))))
+        entry = np.minimum(df["alter"], np.maximum(21, df["alter"] - rng.integers(0, 15, len(df))))
         df["jahr_renteneintr"] = np.where(em, df["geburtsjahr"] + entry,
                                           np.where(df["rentner"], np.minimum(df["geburtsjahr"] + 65, d.year), df["geburtsjahr"] + 67))
     res = dict(date=item["date"], corner=corner, pop=popgen.digest(df), violations=[], float_values=0, target_values=0,
